@@ -265,6 +265,9 @@ def target_parse():
             "minimal": ["frequencies", "real_impedances", "imaginary_impedances"],
             "no-version": ["path", "label", "frequencies", "real_impedances", "imaginary_impedances", "mask", "uuid"],
             "no-uuid(duplicate)": ["version", "path", "label", "frequencies", "real_impedances", "imaginary_impedances", "mask"],
+            # the first file-format version: other names for the three columns (migrated by _parse_v1)
+            "full-v1": ["version", "path", "label", "frequency", "real", "imaginary", "mask"],
+            "minimal-v1": ["version", "frequency", "real", "imaginary"],
         }
         for name, keys in shapes.items():
             ex = executor(sess)
@@ -275,8 +278,9 @@ def target_parse():
             re = ListV(fresh("re", z3.ArraySort(I, R)), z3.IntVal(0), n)
             im = ListV(fresh("im", z3.ArraySort(I, R)), z3.IntVal(0), n)
             m0 = DictV.symbolic("mask", I, Bo)
-            vals = {"version": z3.IntVal(2), "path": StrV(note="p"), "label": StrV(note="l"), "uuid": StrV(note="u"), "frequencies": st.alloc(fr),
+            vals = {"version": z3.IntVal(1 if name.endswith("-v1") else 2), "path": StrV(note="p"), "label": StrV(note="l"), "uuid": StrV(note="u"), "frequencies": st.alloc(fr),
                     "real_impedances": st.alloc(re), "imaginary_impedances": st.alloc(im), "mask": st.alloc(m0)}
+            vals.update(frequency=vals["frequencies"], real=vals["real_impedances"], imaginary=vals["imaginary_impedances"])
             d = PyDict({k: vals[k] for k in keys})
             dref = st.alloc(d)
             pre = st.clone()
